@@ -989,6 +989,13 @@ def gen_c14_case(rnd):
                 case['resources'][nm] = ['div', ['weekly', {'days': [0, 1, 2, 3, 4], 'units': 8}], ['num', rnd.choice([2, 0.5])]]
             elif r < 0.32:
                 case['resources'][nm] = ['div', ['weekly', {'days': [0, 1, 2, 3, 4, 5, 6], 'units': 8}], ['weekly', {'days': [0, 1, 2, 3, 4], 'units': 2}]]
+            elif r < 0.55:
+                # arbitrary calendar expression (the C17 generator): bounded operands, days without information on every
+                # operand, zero capacities, time-of-day bounds -- calc must still answer with a schedule or a RuntimeError
+                from vf import mon_cal
+                ast = mon_cal.gen_ast(rnd, rnd.choice([1, 2, 3]))
+                if ast[0] != 'num':
+                    case['resources'][nm] = ast
         return case
     if k < 0.6:
         # cycle that closes through the hierarchy
